@@ -53,6 +53,9 @@ type Params struct {
 	// pigeons (so a snapshot is live on the chain), ten blocks later a user moves stake (so the next snapshot
 	// differs): from then on batch builds trigger just-in-time valset updates through the event bus
 	HonestValsetAt int `json:"honest_valset_at,omitempty"`
+	// StartUnix: genesis time of the history (0: harness default). Month ends and daylight-saving switches are where
+	// calendar arithmetic on block time depends on the zone it is done in.
+	StartUnix int64 `json:"start_unix,omitempty"`
 }
 
 // Hooks let another monitor observe the omnibus history block by block.
@@ -67,20 +70,21 @@ type Hooks struct {
 }
 
 type mon struct {
-	rec       *fw.Recorder
-	r         *rand.Rand
-	w         *world.BridgeWorld
-	c         *chain.Chain
-	p         params
-	evNonce   map[string]uint64
-	jobs      []string
-	stopped   bool
-	relayTx   map[uint64]*world.RemoteTx
-	lastOps   []string
-	hooks     Hooks
-	blockNo   int
-	extra     []string // chains onboarded by governance during the history (validators register late)
-	onboardAt int
+	rec        *fw.Recorder
+	r          *rand.Rand
+	w          *world.BridgeWorld
+	c          *chain.Chain
+	p          params
+	evNonce    map[string]uint64
+	jobs       []string
+	stopped    bool
+	relayTx    map[uint64]*world.RemoteTx
+	lastOps    []string
+	hooks      Hooks
+	blockNo    int
+	extra      []string         // chains onboarded by governance during the history (validators register late)
+	lightNodes []*chain.Account // fresh accounts that get licences and activate them
+	onboardAt  int
 }
 
 var paloFrame = regexp.MustCompile(`github\.com/palomachain/paloma/v2/([^\s(]+(?:\(\*\w+\)\.\w+)?)`)
@@ -169,7 +173,7 @@ func Drive(c fw.Case, p Params, rec *fw.Recorder, hooks Hooks) {
 	r := c.Rand()
 	chains := []string{"eth-main", "bnb-main"}[:p.NChains]
 	w, err := world.NewBridgeWorld(world.BridgeOpts{Prefix: fmt.Sprintf("c09-%d", c.Seed), Stakes: p.Stakes, NUsers: 3, Chains: chains,
-		FactorySubs: []string{"tka"}, MapUgrain: true, CaptureLog: true, UseLevelDB: p.UseLevelDB})
+		FactorySubs: []string{"tka"}, MapUgrain: true, CaptureLog: true, UseLevelDB: p.UseLevelDB, StartTime: startTime(p.StartUnix)})
 	if w != nil && w.C != nil {
 		defer w.C.Close()
 	}
@@ -243,6 +247,13 @@ func (m *mon) honestValset() {
 	m.rec.Count("valset_update_none_pending", 1)
 }
 
+func startTime(unix int64) time.Time {
+	if unix == 0 {
+		return time.Time{}
+	}
+	return time.Unix(unix, 0).UTC()
+}
+
 func (m *mon) weight(kind string) int {
 	base := map[string]int{"consensus": 10, "skyway": 10, "fees": 4, "gov": 2, "jobs": 6, "misc": 4}
 	if m.p.Focus != "mixed" {
@@ -312,6 +323,20 @@ func (m *mon) block(valsBusy bool) {
 			// factory token administration: the admin (user 0) mints, anybody else tries to
 			d := world.FactoryDenom(w.Users[0], "tka")
 			send(u, "factory-mint", world.MsgMint(u, d, sdkmath.NewInt(int64(1+r.Intn(500)))))
+		case 6:
+			// a licensee activates its licence (creates a vesting account whose schedule is derived from the block time)
+			send(u, "licence-activate", &palomatypes.MsgRegisterLightNodeClient{Metadata: world.Meta(u)})
+		case 7:
+			// a licence for a fresh address (the chain creates the account with the licence), activated later by that address
+			if ln := m.lightNodes; len(ln) < 8 && r.Intn(2) == 0 {
+				nu := chain.NewAccount(fmt.Sprintf("ln%d", len(ln)), fmt.Sprintf("c09-lnx-%d-%d", m.p.Blocks, len(ln)))
+				m.lightNodes = append(m.lightNodes, nu)
+				send(u, "licence-for-activation", &palomatypes.MsgAddLightNodeClientLicense{Metadata: world.Meta(u), ClientAddress: nu.Bech,
+					Amount: sdk.NewInt64Coin(chain.Denom, int64(1+r.Intn(5))*1_000_000), VestingMonths: []uint32{1, 1, 6, 12, 24}[r.Intn(5)]})
+			} else if len(ln) > 0 {
+				nu := ln[r.Intn(len(ln))]
+				send(nu, "licence-activate", &palomatypes.MsgRegisterLightNodeClient{Metadata: world.Meta(nu)})
+			}
 		case 4:
 			if m.hostile() {
 				nu := chain.NewAccount("ln", fmt.Sprintf("c09-ln-%d-%d", c.Height, r.Intn(1000)))
